@@ -19,9 +19,9 @@ func init() {
 // lexOpts is the generator domain for the lexer campaigns.
 func lexOpts() gram.LexGenOpts {
 	o := gram.DefaultLexGenOpts()
-	// VERIF_FREE_REGDEFS=1 lifts the S1/S2 restriction (used to validate a repair of finding F3)
-	if os.Getenv("VERIF_FREE_REGDEFS") != "" {
-		o.FreeRegdefs = true
+	// VERIF_S1S2_ONLY=1 restores the restricted regdef domain that was in force while finding F3 was open
+	if os.Getenv("VERIF_S1S2_ONLY") != "" {
+		o.FreeRegdefs = false
 	}
 	return o
 }
@@ -38,8 +38,8 @@ func lexCampaign(c *Ctx, prop string) error {
 	if prop == "C08" {
 		nGram = c.Pick(30, 300)
 	}
-	c.Rule = "random lexical parts (tokens, ignored tokens, S1/S2 regular definitions, string literals) run through the real gocc, compiled, and scanned on hostile inputs (sampled lexemes, mutants, class-boundary runes, ill-formed UTF-8, tabs/CR/LF); a case is one (grammar, input); non-trivial = the model's token stream for it contains at least one token or INVALID lexeme; distinct by (grammar, input bytes)"
-	c.Assumptions = []string{"M-LEX (position-set NFA simulation with macro-expanded regdefs) is a faithful reading of C01", "regular definitions restricted to shapes S1/S2 while finding F3 is open", "utf8.DecodeRune semantics for ill-formed bytes"}
+	c.Rule = "random lexical parts (tokens, ignored tokens, arbitrary acyclic regular definitions - nullable, nested, multiply used -, string literals) run through the real gocc, compiled, and scanned on hostile inputs (sampled lexemes, mutants, class-boundary runes, ill-formed UTF-8, tabs/CR/LF); a case is one (grammar, input); non-trivial = the model's token stream for it contains at least one token or INVALID lexeme; distinct by (grammar, input bytes)"
+	c.Assumptions = []string{"M-LEX (position-set NFA simulation with macro-expanded regdefs) is a faithful reading of C01", "regular definitions are acyclic (a recursive definition has no macro expansion and is refused by gocc)", "utf8.DecodeRune semantics for ill-formed bytes"}
 	var jobs []*GenJob
 	for i := 0; i < nGram; i++ {
 		g := gram.GenLexGrammar(c.Rng, lexOpts())
